@@ -20,7 +20,11 @@ ASSUMPTIONS = ['protobuf client/listener pair not runnable (google.protobuf abse
 
 def configs(tier, seed):
   n = 4 if tier == 'quick' else 8
-  return [dict(name='%s/%d' % (p, s), proto=p, shard=s) for p in ('pickle', 'line') for s in range(n)]
+  cfgs = [dict(name='%s/%d' % (p, s), proto=p, shard=s) for p in ('pickle', 'line') for s in range(n)]
+  # big batches: MAX_DATAPOINTS_PER_MESSAGE in the tens of thousands on the relay, PICKLE_RECEIVER_MAX_LENGTH raised
+  # accordingly on the next daemon (what carbon.conf.example says the setting is for)
+  cfgs.append(dict(name='pickle/big', proto='pickle', shard=77, big=True))
+  return cfgs
 
 
 def ulp_close(a, b):
@@ -38,7 +42,8 @@ def ulp_close(a, b):
 def run_config(cfg, res):
   from vlib import relayharness as rh, proto
   rl = rh.boot_relay({'RELAY_METHOD': 'constant', 'DESTINATIONS': '127.0.0.1:2004:a', 'DESTINATION_PROTOCOL': cfg['proto'],
-                      'MAX_QUEUE_SIZE': 100000, 'USE_FLOW_CONTROL': False})
+                      'MAX_QUEUE_SIZE': 100000, 'USE_FLOW_CONTROL': False,
+                      'PICKLE_RECEIVER_MAX_LENGTH': (8 * 2 ** 20 if cfg.get('big') else 2 ** 20)})
   import carbon.protocols as P
   from carbon import events
   rec = proto.install_recorder()
@@ -54,11 +59,16 @@ def run_config(cfg, res):
   transport = conn.h_connection_made()
   listener = P.MetricPickleReceiver if cfg['proto'] == 'pickle' else P.MetricLineReceiver
   ncases = 500 if cfg['tier'] == 'quick' else 8000
+  if cfg.get('big'):
+    ncases = 2 if cfg['tier'] == 'quick' else 6
   pool, dppool = [], []
   for case in range(ncases):
     batch = r.choice([1, 2, 3, 7, 500])
-    settings['MAX_DATAPOINTS_PER_MESSAGE'] = batch
     n = r.choice([0, 1, 2, 3, 5, 7, 8, 14, 21, 40])
+    if cfg.get('big'):
+      batch, n = r.choice([30000, 50000]), r.choice([45000, 60000])
+      res.count('big_batches')
+    settings['MAX_DATAPOINTS_PER_MESSAGE'] = batch
     queued = []
     share = r.random() < 0.5          # recurring series: the very same name / datapoint objects show up in several messages
     for i in range(n):
@@ -118,7 +128,8 @@ def run_config(cfg, res):
     if len(data) > 2:
       pos = sorted(set(r.randrange(1, len(data)) for _ in range(5)))
       segmentations.append(proto.cut(data, pos))
-      segmentations.append([data[i:i + 13] for i in range(0, len(data), 13)])
+      step = 13 if len(data) < 200000 else 65521
+      segmentations.append([data[i:i + step] for i in range(0, len(data), step)])
     for segs in segmentations:
       o = proto.tcp_session(listener, segs, rec)
       res.count('listener_sessions')
